@@ -339,7 +339,20 @@ def r055(prog, chk):
             if not isinstance(st, ast.Continue):
                 continue
             cs = conds(prog, f, st)
-            zero = [c for c in cs if c.kind in ("if", "boolop") and any(isinstance(x, ast.Compare) and isinstance(x.ops[0], ast.Eq) and A.is_const(x.comparators[0], 0) for x in ast.walk(c.test))]
+            def is_value(e):
+                return (isinstance(e, ast.Name) and e.id == "value") or (isinstance(e, ast.Attribute) and e.attr == "value")
+
+            def zero_test(c):
+                """the guard says something about the kerning value being zero / falsy"""
+                for lit in (conjuncts(c) or [c.test]):
+                    for x in ast.walk(lit):
+                        if isinstance(x, ast.Compare) and isinstance(x.ops[0], ast.Eq) and A.is_const(x.comparators[0], 0):
+                            return True
+                    core = lit.operand if isinstance(lit, ast.UnaryOp) and isinstance(lit.op, ast.Not) else None
+                    if core is not None and is_value(core):
+                        return True  # `not value`: zero tested by truthiness
+                return False
+            zero = [c for c in cs if c.kind in ("if", "boolop") and zero_test(c)]
             if not zero:
                 continue
             n += 1
@@ -609,6 +622,8 @@ def r058(prog, chk):
 
 
 MUTANTS = [
+    M("every zero-valued pair dropped by a truthiness test", "ufo2ft/featureWriters/kernFeatureWriter.py", "KernFeatureWriter.getKerningPairs",
+      "firstIsClass and secondIsClass and value == 0", "not value", rule="R05.5"),
     M("bucket merging done in a single pass (seeded C05a)", "ufo2ft/featureWriters/kernFeatureWriter.py", "mergeScripts",
       "merged = True\ncommon |= scripts", "common |= scripts", rule="R05.8"),
     M("ordering key compares side names before class-ness", "ufo2ft/featureWriters/kernFeatureWriter.py", "KerningPair.__lt__",
